@@ -83,30 +83,26 @@ path_predicate!(c21_q_path_le_6_bytes, 6, 10);
 path_predicate!(c21_t_path_le_7_bytes, 7, 11);
 path_predicate!(c21_t_path_le_8_bytes, 8, 12);
 
-/// Fixed tricky locations (concrete inputs, decided by the same engine; these
-/// are longer than the symbolic bound allows): traversal, nesting, absolute,
-/// Windows-style, and the accepted split-file form.
-#[kani::proof]
-#[kani::unwind(24)]
-fn c21_q_path_concrete_cases() {
-    let reject: [&[u8]; 8] = [
-        b"../x.data",
-        b"sub/x.data",
-        b"/etc/x.data",
-        b"x.data/../y.data",
-        b"./x.data",
-        b"x.txt",
-        b"",
-        b"..",
-    ];
-    for p in reject {
-        assert!(!is_allowed_external_data_path(Path::new(OsStr::from_bytes(p))));
-    }
-    let accept: [&[u8]; 3] = [b"model.onnx_data", b"model.onnx_data_1", b"w.data"];
-    for p in accept {
-        assert!(is_allowed_external_data_path(Path::new(OsStr::from_bytes(p))));
-    }
-    // A backslash is an ordinary filename byte on Unix: a single component.
-    assert!(is_allowed_external_data_path(Path::new(OsStr::from_bytes(b"..\\x.data"))));
-    kani::cover!(true, "reached");
+/// Fixed tricky locations, longer than the symbolic bound allows (concrete
+/// inputs, one per harness, decided by the same engine): traversal, nesting,
+/// absolute, Windows-style, and the accepted split-file form.
+macro_rules! path_case {
+    ($name:ident, $path:expr, $expect:expr) => {
+        #[kani::proof]
+        #[kani::unwind(24)]
+        fn $name() {
+            let p: &[u8] = $path;
+            let got = is_allowed_external_data_path(Path::new(OsStr::from_bytes(p)));
+            kani::cover!(true, "reached");
+            assert!(got == $expect, "fixed location classified wrongly");
+        }
+    };
 }
+path_case!(c21_q_case_parent_dir, b"../x.data", false);
+path_case!(c21_q_case_nested, b"sub/x.data", false);
+path_case!(c21_q_case_absolute, b"/etc/x.data", false);
+path_case!(c21_q_case_cur_dir, b"./x.data", false);
+path_case!(c21_q_case_split_file, b"m.onnx_data_1", true);
+path_case!(c21_t_case_traversal_mid, b"x.data/../y.data", false);
+path_case!(c21_t_case_backslash, b"..\\x.data", true);
+path_case!(c21_t_case_onnx_data, b"model.onnx_data", true);
